@@ -2,6 +2,10 @@
 
 pub mod common;
 pub mod c01;
+pub mod c10;
+pub mod hist06;
+pub mod quantile;
+pub mod quantile_plans;
 
 use crate::report::Tier;
 use common::Check;
@@ -15,6 +19,11 @@ pub struct Plan {
 pub fn plan(prop: &str, tier: Tier) -> Option<Plan> {
     match prop {
         "C01" => Some(c01::plan(tier)),
+        "C05" => Some(quantile_plans::plan05(tier)),
+        "C06" => Some(hist06::plan(tier)),
+        "C07" => Some(quantile_plans::plan07(tier)),
+        "C10" => Some(c10::plan(tier)),
+        "C15" => Some(quantile_plans::plan15(tier)),
         _ => None,
     }
 }
